@@ -1084,7 +1084,7 @@ class Node(object):
 
         nodes = list(self.childNodes)
         while self.childNodes:
-            self.childNodes.pop()
+            self.pop()
         text = []
         for item in nodes:
             if item.nodeType == item.TEXT_NODE:
